@@ -1155,6 +1155,26 @@ def gen_c09(rng: random.Random, sid: str, thorough: bool = False) -> dict:
             'rand': rng.choice([None, 'lo', 'hi'])}
 
 
+def hostless_update_scenarios(own: str) -> List[dict]:
+    """A service registered without a host name (the instance name serves as host name) is updated with a new description that has
+    none either: answered with the new port / text afterwards, and still there."""
+    out = []
+    for k in range(4):
+        sp = service_spec(0, [0, 1, 3, 0][k], 0, ['v4', 'dual', 'v4', 'two4'][k], port=80, txt=b'\x03a=1')
+        sp['host'] = None
+        sp2 = dict(sp, port=8080, txt=(b'\x03a=2').hex())
+        qs = lambda t: [{'op': 'at', 't': t},         # noqa: E731
+                        {'op': 'query', 'qs': [{'name': sp['name'], 'type': wire.T_SRV, 'sp': 0, 'qu': False}], 'qid': 1, 'src': '10.0.0.9', 'port': 40000},
+                        {'op': 'at', 't': t + 1500},
+                        {'op': 'query', 'qs': [{'name': sp['name'], 'type': wire.T_A, 'sp': 1, 'qu': False}, {'name': sp['type'], 'type': wire.T_PTR, 'sp': 0, 'qu': False}],
+                         'qid': 2, 'src': '10.0.0.23', 'port': 40001}]
+        steps = [{'op': 'at', 't': 0}, {'op': 'reg', 'svc': sp, 'coop': True}] + qs(3000) + \
+                [{'op': 'at', 't': 8000}, {'op': 'upd', 'svc': sp2, 'same_object': k == 3}] + qs(11000) + \
+                [{'op': 'at', 't': 16000}, {'op': 'unreg', 'sid': 0, 'fresh': False}, {'op': 'at', 't': 18000}] + qs(19000) + [{'op': 'at', 't': 23000}]
+        out.append({'id': '%s-hostless-%d' % (own.lower(), k), 'seed': 1, 'steps': steps, 'layout': 'single', 'rand': None})
+    return out
+
+
 def gen_c17_early(rng: random.Random, sid: str) -> dict:
     """Closed while still starting; afterwards datagrams arrive for every socket the instance would have had."""
     layout = rng.choice(['single', 'split', 'dual'])
